@@ -142,6 +142,12 @@ def pylist(v):
     return None
 
 
+def _clone_container(v):
+    if isinstance(v, ListV):
+        return ListV(list(v.items), getattr(v, "tup", False))
+    return v
+
+
 class Elab:
     MAX_DEPTH = 14
     MAX_UNROLL = 300
@@ -313,7 +319,44 @@ class Elab:
             del self.design.instances[old]
         self.design.instances[newpath] = inst
 
+    # formal parameter names of the library constructors the rules look into (migen / litex); repository classes take theirs from the AST
+    LIB_FORMALS = {
+        "Signal": ["bits_sign", "name", "variable", "reset", "reset_less", "name_override", "min", "max", "related", "attr"],
+        "SyncFIFO": ["layout", "depth", "buffered"],
+        "AsyncFIFO": ["layout", "depth", "buffered"],
+        "SyncFIFOBuffered": ["width", "depth"],
+        "Buffer": ["layout", "pipe_valid", "pipe_ready"],
+        "RoundRobin": ["n", "switch_policy"],
+        "Converter": ["nbits_from", "nbits_to", "reverse", "report_valid_token_count"],
+        "StrideConverter": ["description_from", "description_to", "reverse"],
+        "ClockDomainCrossing": ["layout", "cd_from", "cd_to", "depth", "buffered", "with_common_rst"],
+        "Memory": ["width", "depth", "init", "name"],
+        "WaitTimer": ["t"],
+        "Endpoint": ["description_or_layout", "name"],
+        "EndpointDescription": ["payload_layout", "param_layout"],
+    }
+
+    @staticmethod
+    def canon_args(formals, args, kwargs):
+        """Bind actual to formal parameters by name: every supplied parameter is in kwargs under its formal name, and args
+        holds the contiguous prefix of supplied parameters in formal order - so that f(a, b) and f(x=a, y=b) look alike."""
+        if any(isinstance(a, Op) and a.op == "star" for a in args) or "**" in kwargs:
+            return args, kwargs
+        kw = dict(kwargs)
+        for i, a in enumerate(args):
+            if i < len(formals):
+                kw.setdefault(formals[i], a)
+        pos = list(args)
+        for nm in formals[len(args):]:
+            if nm in kwargs:
+                pos.append(kwargs[nm])
+            else:
+                break
+        return pos, kw
+
     def new_obj(self, cls, args, kwargs, node, kind="prim"):
+        if kind == "prim" and cls in self.LIB_FORMALS:
+            args, kwargs = self.canon_args(self.LIB_FORMALS[cls], list(args), dict(kwargs))
         o = Obj(cls, args, kwargs, None, self.loc(node) if node is not None else None, kind)
         self.design.objs.append(o)
         o.uid = len(self.design.objs)
@@ -930,6 +973,16 @@ class Elab:
             return self.call_method(base, attr, args, kwargs, n, env)
         fv = self.ev(f, env)
         args, kwargs = self.eval_args(n, env)
+        # f(*phi(c, [..], [..]))  ->  phi(c, f(*[..]), f(*[..]))   for pure constructors only
+        if isinstance(f, ast.Name) and f.id in ("Cat", "max", "min", "sum", "len", "reduce"):
+            for i, a in enumerate(args):
+                if isinstance(a, Op) and a.op == "star" and isinstance(a.args[0], Op) and a.args[0].op == "phi":
+                    c, x, y = a.args[0].args
+                    lx, ly = pylist(x), pylist(y)
+                    if lx is not None and ly is not None:
+                        r1 = self.call_value(fv, args[:i] + list(lx) + args[i + 1:], kwargs, n, env)
+                        r2 = self.call_value(fv, args[:i] + list(ly) + args[i + 1:], kwargs, n, env)
+                        return r1 if veq(r1, r2) else Op("phi", (c, r1, r2))
         return self.call_value(fv, args, kwargs, n, env)
 
     def call_method(self, base, attr, args, kwargs, n, env):
@@ -1629,6 +1682,10 @@ class Elab:
         o.name_depth = 0
         self.design.instances[o.path] = o
         fm = self.find_method(clsv, "__init__")
+        if fm is not None:
+            fa = fm[1].args
+            formals = [a.arg for a in list(getattr(fa, "posonlyargs", [])) + list(fa.args)][1:]
+            o.args, o.kwargs = self.canon_args(formals, list(args), dict(kwargs))
         if fm is None:
             for b in clsv.bases:
                 if isinstance(b, ast.Call) and isinstance(b.func, ast.Name) and b.func.id == "namedtuple" and len(b.args) == 2:
@@ -1910,7 +1967,14 @@ class Elab:
         battrs = dict(inst.attrs) if inst is not None else None
         res = []
         for pol, body in ((True, s.body), (False, s.orelse)):
-            env.vars = dict(before)
+            # containers are cloned per arm so that an in-place `+=` / append in one arm is not seen by the other
+            clones = {}
+            env.vars = {}
+            for k, v in before.items():
+                c = _clone_container(v)
+                if c is not v:
+                    clones[id(c)] = (c, v)
+                env.vars[k] = c
             if inst is not None:
                 inst.attrs = dict(battrs)
             self.cfg.append((key, pol, cond))
@@ -1924,6 +1988,10 @@ class Elab:
             except (_Break, _Continue):
                 status = "loopctl"
             self.cfg.pop()
+            for k, v in list(env.vars.items()):
+                cv = clones.get(id(v))
+                if cv is not None and len(cv[0].items) == len(cv[1].items) and all(x is y for x, y in zip(cv[0].items, cv[1].items)):
+                    env.vars[k] = cv[1]       # untouched in this arm: keep the original object (aliases stay aliases)
             res.append((status, val, env.vars, dict(inst.attrs) if inst is not None else None))
         (s1, v1, e1, a1), (s2, v2, e2, a2) = res
         live = [r for r in res if r[0] in ("fall", "loopctl")]
@@ -2085,9 +2153,10 @@ def elaborate(repo, modname, clsname, args=None, kwargs=None, overrides=None, ha
     return el.design, el
 
 
-def eval_method(repo, modname, clsname, method, args=None, kwargs=None, overrides=None, hasattrs=None):
+def eval_method(repo, modname, clsname, method, args=None, kwargs=None, overrides=None, hasattrs=None, init=False):
     """Symbolically evaluate one method of a repository class on a fresh symbolic instance `self`
-    (its __init__ is NOT run: attributes are opaque `self.x` symbols). Returns (value, Elab)."""
+    (its __init__ is NOT run: attributes are opaque `self.x` symbols - unless init=True, in which case __init__ runs first
+    with every formal parameter `p` bound to the symbol `init.p`). Returns (value, Elab)."""
     el = Elab(repo, overrides, hasattrs)
     env = el.modenv(modname)
     if env is None:
@@ -2108,6 +2177,16 @@ def eval_method(repo, modname, clsname, method, args=None, kwargs=None, override
     fn = Func(fm[1], fm[0].env, fm[0].name + "." + method, selfobj=top, clsv=fm[0], module=fm[0].module)
     el.inst_stack.append(top)
     el.depth = -1
+    if init:
+        im = el.find_method(clsv, "__init__")
+        if im is not None:
+            formals = [a.arg for a in im[1].args.args][1:]
+            ifn = Func(im[1], im[0].env, im[0].name + ".__init__", selfobj=top, clsv=im[0], module=im[0].module)
+            try:
+                el.call_func(ifn, [Sym("init." + f) for f in formals], {}, None)
+            except _Dead:
+                pass
+            el.depth = -1
     try:
         r = el.call_func(fn, list(args or ()), dict(kwargs or {}), None)
     except _Dead:
